@@ -174,6 +174,9 @@ func bufRelease(pool any, b *bytes.Buffer) {
 	c := b.Cap()
 	noteRelease(p, c)
 	b.Reset()
+	if c > 8<<20 {
+		c = 8 << 20 // enough to ruin any message; keeps giant buffers cheap
+	}
 	s := b.Bytes()[:c]
 	for i := range s {
 		s[i] = poison
